@@ -631,7 +631,20 @@ func (ev *Eval) eval(e Expr) SV {
 		if !x.Forall {
 			q = "exists"
 		}
-		return SV{T: T{fmt.Sprintf("(%s (%s) %s)", q, strings.Join(binders, " "), body.S), SBool}, Ty: boolTy}
+		bs := body.S
+		if x.Forall {
+			// explicit trigger: when every bound variable is the bare index of some read in the body
+			// ((select X v)), the smallest such read per variable is the pattern. Contracts are written over
+			// absolute positions for exactly this purpose; left to themselves the solvers often pick none.
+			var names []string
+			for _, qv := range x.Vars {
+				names = append(names, n.vars[qv.Name].T.S)
+			}
+			if pats := barePatterns(bs, names); pats != "" {
+				bs = "(! " + bs + " :pattern (" + pats + "))"
+			}
+		}
+		return SV{T: T{fmt.Sprintf("(%s (%s) %s)", q, strings.Join(binders, " "), bs), SBool}, Ty: boolTy}
 	case *ECall:
 		return ev.call(x)
 	case *ESlice:
@@ -912,4 +925,55 @@ func (c *Ctx) opaqueDef(sf *SpecFunc, at *Eval) *opaqueInfo {
 	c.opaque[sf.Name] = od
 	c.Decl("sf:"+sf.Name, od.decl)
 	return od
+}
+
+// barePatterns returns, for a quantifier body and its bound variables, one "(select X v)" term per variable in
+// which v is exactly the index and X mentions no bound variable - or "" if some variable has no such read.
+func barePatterns(body string, vars []string) string {
+	var out []string
+	for _, v := range vars {
+		best := ""
+		suffix := " " + v + ")"
+		for from := 0; ; {
+			k := strings.Index(body[from:], suffix)
+			if k < 0 {
+				break
+			}
+			end := from + k + len(suffix) // one past the closing paren of the candidate
+			from = from + k + 1
+			// walk back to the matching open paren
+			depth := 0
+			start := -1
+			for i := end - 1; i >= 0; i-- {
+				if body[i] == ')' {
+					depth++
+				} else if body[i] == '(' {
+					depth--
+					if depth == 0 {
+						start = i
+						break
+					}
+				}
+			}
+			if start < 0 || !strings.HasPrefix(body[start:], "(select ") {
+				continue
+			}
+			term := body[start:end]
+			inner := term[len("(select ") : len(term)-len(suffix)]
+			ok := true
+			for _, w := range vars {
+				if strings.Contains(inner, w+" ") || strings.Contains(inner, w+")") || strings.HasSuffix(inner, w) {
+					ok = false
+				}
+			}
+			if ok && (best == "" || len(term) < len(best)) {
+				best = term
+			}
+		}
+		if best == "" {
+			return ""
+		}
+		out = append(out, best)
+	}
+	return strings.Join(out, " ")
 }
